@@ -69,7 +69,8 @@ type World struct {
 	Contract  []ethcmn.Address
 	Factories []ethcmn.Address // deployed "fund, then deploy" factories (see rtFactory)
 
-	Results []*sim.BlockRes // primary replica's results per block
+	Results  []*sim.BlockRes // primary replica's results per block
+	Restarts int             // restarts of the single replica performed so far (BlockSpec.Restart)
 }
 
 // NewWorld builds the genesis and the requested replicas and runs InitChain on each.
@@ -211,6 +212,15 @@ func (w *World) IsFrozen(a keys.Address) bool {
 // RunBlock makes the block from spec, executes it on every replica and advances the chain
 // with the primary's result. It returns every replica's result.
 func (w *World) RunBlock(spec sim.BlockSpec) (*sim.Block, []*sim.BlockRes) {
+	if spec.Restart && len(w.R) == 1 && w.C.Height >= 1 && !w.R[0].Panicked && !w.R[0].Closed() {
+		// a node-local event between two blocks: stop, start again on the data directory (real Prepare(), Info). What
+		// the application keeps only in memory is gone; everything the monitors read afterwards comes from the new
+		// incarnation. A harness-side failure (copy of a compacting database) leaves the old incarnation running.
+		if nr, err := sim.Restart(w.R[0], w.C, fmt.Sprintf("rs%d", w.C.Height)); err == nil {
+			w.R[0] = nr
+			w.Restarts++
+		}
+	}
 	b := w.C.MakeBlock(spec)
 	var out []*sim.BlockRes
 	for _, r := range w.R {
